@@ -23,12 +23,13 @@ class Mutant:
     expect: tuple = ()  # rule-name prefixes that must refute it (seeded only)
     count: int = 1
     within: str | None = None  # optional: restrict to the source of this def/class name
+    more: tuple = ()  # further (old, new) edits applied to the same file
 
 
-def M(name, path, old, new, expect=(), count=1, within=None) -> Mutant:
+def M(name, path, old, new, expect=(), count=1, within=None, more=()) -> Mutant:
     if isinstance(expect, str):
         expect = (expect,)
-    return Mutant(name, path, old, new, tuple(expect), count, within)
+    return Mutant(name, path, old, new, tuple(expect), count, within, tuple(more))
 
 
 def _norm_ws(s: str) -> str:
@@ -59,6 +60,20 @@ def apply(root: str, m: Mutant) -> str | None:
         return None
     with open(path, encoding="utf-8") as f:
         source = f.read()
+    out = _apply_one(source, m.old, m.new, m.count, m.within)
+    for old, new in m.more:
+        if out is None:
+            return None
+        out = _apply_one(out, old, new, 1, m.within)
+    return out
+
+
+def _apply_one(source, old_s, new_s, count, within):
+    class _E:
+        pass
+
+    m = _E()
+    m.old, m.new, m.count, m.within = old_s, new_s, count, within
     lo, hi = 0, len(source)
     if m.within:
         span = _find_span(source, m.within)
